@@ -77,11 +77,11 @@ Proof.
   cbn. auto.
 Qed.
 
-Lemma break_unwind_balance t : forall bs vs t' bs' vs',
-  break_unwind t bs vs = Some (t', bs', vs') ->
+Lemma break_unwind_balance t : forall bs vs t' bs' vs' lu,
+  break_unwind t bs vs = Some (t', bs', vs', lu) ->
   length bs' + pending t = length bs + pending t'.
 Proof.
-  induction t as [|[s e] t IH]; intros bs vs t' bs' vs' H; cbn [break_unwind] in H.
+  induction t as [|[s e] t IH]; intros bs vs t' bs' vs' lu H; cbn [break_unwind] in H.
   - inversion H; subst. lia.
   - destruct (is_running_loop s e) eqn:R.
     + destruct s as [|b|]; try discriminate; destruct e; try discriminate.
@@ -233,7 +233,7 @@ Proof.
   all: try (repeat break_match H; inversion H; subst; bal_simpl; rewrite ?add_new_length;
             repeat match goal with E : set_existing _ _ _ = Some _ |- _ => apply set_existing_length in E; cbn [blocks set_vals] in E end;
             lia).
-  all: try (destruct (break_unwind (todo f) (blocks f) (vals f)) as [[[t0 bs0] vs0]|] eqn:E; [|discriminate];
+  all: try (destruct (break_unwind (todo f) (blocks f) (vals f)) as [[[[t0 bs0] vs0] lu0]|] eqn:E; [|discriminate];
             apply break_unwind_balance in E; inversion H; subst; bal_simpl; lia).
   all: try (destruct (continue_unwind (todo f) (blocks f)) as [[t0 bs0]|] eqn:E; [|discriminate];
             apply continue_unwind_balance in E; inversion H; subst; bal_simpl; lia).
